@@ -222,10 +222,13 @@ def nigam(V, lead_zero):
 
 
 @unit('C01', 'response_series-entry-points', functions=[SD + 'response_series', 'eqsig.single.AccSignal.response_series'],
-      cases=[dict(entry=e, lead_zero=z) for e in ('response_series', 'AccSignal.response_series') for z in (False, True)],
+      cases=[dict(entry=e, lead_zero=z, pre='fresh') for e in ('response_series', 'AccSignal.response_series') for z in (False, True)] +
+            [dict(entry='AccSignal.response_series', lead_zero=False, pre='after-an-earlier-call')],
       modes=('unbounded',), budget_ms=90000)
-def entry_points(V, entry, lead_zero):
-    """The two public entry points return exactly the series of nigam_and_jennings_response (same postconditions)."""
+def entry_points(V, entry, lead_zero, pre):
+    """The two public entry points return exactly the series of nigam_and_jennings_response (same postconditions).
+    pre='after-an-earlier-call': the object has already answered response_series(periods, xi0) for ANY other damping xi0 and is
+    now asked again with the periods it has stored (response_times not passed): the answer must be the one for the new xi."""
     st = {}
     base = _nj_setup(V, st, lead_zero)
 
@@ -234,10 +237,30 @@ def entry_points(V, entry, lead_zero):
         if entry == 'response_series':
             return dict(motion=kw['acc'], dt=kw['dt'], periods=kw['periods'], xi=kw['xi'])
         asig = S.make_signal(V, 'AccSignal', kw['acc'], kw['dt'])
+        if pre != 'fresh':
+            xi0 = V.real('xi0')
+            V.assume(xi0 >= 0, xi0 < 1)
+            st.update(xi0=xi0, periods_arg=kw['periods'], xi_arg=kw['xi'])
+            return ((asig,), {})
         return ((asig,), dict(response_times=kw['periods'], xi=kw['xi']))
+
+    def two_calls(itp, asig):
+        # the EARLIER call: only its effect on the object matters here, its series are summarised as a deterministic function
+        # of (record, dt, periods, xi0) -- the contract proved by the other cases of this unit; the call under proof runs in full
+        def rseries(itp_, motion, dt, periods, xi):
+            pa = V.np.np_array(periods, dtype=itp.lib.builtin('float'))
+            key = [motion, dt, pa, xi]
+            return tuple(V.np.opaque_array('earlier_resp_series_%s' % nm, key, (pa.shape[0], st['n']), 'float',
+                                           assumed='earlier response_series call summarised by its contract') for nm in ('u', 'v', 'a'))
+        itp.contracts['eqsig.sdof.response_series'] = rseries
+        try:
+            itp.call(itp.get_attr(asig, 'response_series'), [], dict(response_times=st['periods_arg'], xi=st['xi0']))
+        finally:
+            del itp.contracts['eqsig.sdof.response_series']
+        return itp.call(itp.get_attr(asig, 'response_series'), [], dict(xi=st['xi_arg']))
     fn = SD + 'response_series' if entry == 'response_series' else 'eqsig.single.AccSignal.response_series'
-    for out in V.run(fn, setup):
-        out.replay_info = dict(module='sdof', entry=entry)
+    for out in V.run(two_calls if pre != 'fresh' else fn, setup):
+        out.replay_info = dict(module='sdof', entry=entry, pre=pre)
         if out.ended is not None:
             out.side_conditions()
             continue
